@@ -247,3 +247,116 @@ theorem filter_lt_forVals_one (a b N : Int) (h1 : a ≤ N) (h2 : N ≤ b) :
   rw [k1, k2, List.append_nil]
 
 end Occa.Functional
+
+/-! ### stepped segments: alignment, chunking by a multiple of the step, clipping -/
+
+namespace Occa.Functional
+
+theorem upCount_eq_zero (a b c : Int) (hc : 0 < c) (h : upCount a b c = 0) : b ≤ a := by
+  by_cases hh : a < b
+  · have := upCount_lt a b c hc hh; omega
+  · omega
+
+theorem upCount_aligned (a B : Int) (hB : 0 < B) (k : Nat) : upCount a (a + (k : Int) * B) B = k := by
+  unfold upCount
+  have e : a + (k : Int) * B - a + B - 1 = (B - 1) + (k : Int) * B := by omega
+  rw [e, Int.add_mul_ediv_right _ _ (Int.ne_of_gt hB), Int.ediv_eq_zero_of_lt (by omega) (by omega)]
+  omega
+
+theorem upCount_cover (a b B : Int) (hB : 0 < B) : b ≤ a + (upCount a b B : Int) * B := by
+  by_cases h : a < b
+  · have hq : 0 ≤ (b - a + B - 1) / B := Int.ediv_nonneg (by omega) (by omega)
+    have hk : ((upCount a b B : Nat) : Int) = (b - a + B - 1) / B := by unfold upCount; omega
+    rw [hk]
+    have h1 := Int.mul_ediv_add_emod (b - a + B - 1) B
+    have h2 := Int.emod_lt_of_pos (b - a + B - 1) hB
+    rw [Int.mul_comm] at h1
+    omega
+  · rw [upCount_ge a b B hB (by omega)]
+    simp; omega
+
+/-- a loop that is cut at its own block boundary visits the same values -/
+theorem forVals_to_aligned (a b B : Int) (hB : 0 < B) :
+    forVals a b B = forVals a (a + (upCount a b B : Int) * B) B :=
+  forVals_congr_count a b _ B hB (upCount_aligned a B hB _).symm
+
+theorem forVals_split_aligned (c : Int) (hc : 0 < c) :
+    ∀ (j : Nat) (a b : Int), a + (j : Int) * c ≤ b →
+      forVals a b c = forVals a (a + (j : Int) * c) c ++ forVals (a + (j : Int) * c) b c := by
+  intro j
+  induction j with
+  | zero =>
+    intro a b _
+    have e : a + ((0 : Nat) : Int) * c = a := by simp
+    rw [e, forVals_nil a a c hc (by omega)]
+    rfl
+  | succ j ih =>
+    intro a b h
+    have hj : (0 : Int) ≤ (j : Int) * c := Int.mul_nonneg (by omega) (by omega)
+    have e : a + ((j + 1 : Nat) : Int) * c = (a + c) + (j : Int) * c := by
+      push_cast; rw [Int.add_mul]; omega
+    rw [e] at h ⊢
+    rw [forVals_cons a b c hc (by omega), forVals_cons a (a + c + (j : Int) * c) c hc (by omega),
+      ih (a + c) b h, List.cons_append]
+
+/-- `m` blocks of `T` steps each enumerate the same values as the plain stepped loop -/
+theorem chunk_flatMap_step (c : Int) (hc : 0 < c) (T : Nat) (hT : 0 < T) :
+    ∀ (m : Nat) (a : Int),
+      (forVals a (a + (m : Int) * ((T : Int) * c)) ((T : Int) * c)).flatMap
+          (fun blk => forVals blk (blk + (T : Int) * c) c)
+        = forVals a (a + (m : Int) * ((T : Int) * c)) c := by
+  have hB : 0 < (T : Int) * c := Int.mul_pos (by omega) hc
+  intro m
+  induction m with
+  | zero =>
+    intro a
+    have e : a + ((0 : Nat) : Int) * ((T : Int) * c) = a := by simp
+    rw [e, forVals_nil a a _ hB (by omega), forVals_nil a a c hc (by omega)]
+    rfl
+  | succ m ih =>
+    intro a
+    have hm : (0 : Int) ≤ (m : Int) * ((T : Int) * c) := Int.mul_nonneg (by omega) (by omega)
+    have e : a + ((m + 1 : Nat) : Int) * ((T : Int) * c) = (a + (T : Int) * c) + (m : Int) * ((T : Int) * c) := by
+      push_cast; rw [Int.add_mul]; omega
+    rw [e, forVals_cons a _ _ hB (by omega), List.flatMap_cons, ih (a + (T : Int) * c),
+      forVals_split_aligned c hc T a (a + (T : Int) * c + (m : Int) * ((T : Int) * c)) (by omega)]
+
+/-- keeping the values below `e` of an upward loop = stopping the loop at `e` -/
+theorem filter_lt_forVals (b c e : Int) (hc : 0 < c) :
+    ∀ (n : Nat) (a : Int), upCount a b c = n →
+      (forVals a b c).filter (fun x => decide (x < e)) = forVals a (min b e) c := by
+  intro n
+  induction n with
+  | zero =>
+    intro a h
+    have hba := upCount_eq_zero a b c hc h
+    rw [forVals_nil a b c hc hba, forVals_nil a (min b e) c hc (by omega)]
+    rfl
+  | succ n ih =>
+    intro a h
+    have hab : a < b := by
+      by_cases hh : a < b
+      · exact hh
+      · have := upCount_ge a b c hc (by omega); omega
+    have hn : upCount (a + c) b c = n := by have := upCount_lt a b c hc hab; omega
+    rw [forVals_cons a b c hc hab, List.filter_cons]
+    by_cases hae : a < e
+    · rw [if_pos (by simpa using hae), ih (a + c) hn, forVals_cons a (min b e) c hc (by omega)]
+    · rw [if_neg (by simpa using hae), ih (a + c) hn, forVals_nil (a + c) (min b e) c hc (by omega),
+        forVals_nil a (min b e) c hc (by omega)]
+
+/-- a descending loop is the mirror image of an ascending one -/
+theorem forVals_neg (a b st : Int) (hst : st < 0) :
+    forVals a b st = (forVals (-a) (-b) (-st)).map (fun x => -x) := by
+  rw [forVals_down a b st hst, forVals_up (-a) (-b) (-st) (by omega), List.map_map]
+  have e : downCount a b st = upCount (-a) (-b) (-st) := by
+    unfold downCount upCount
+    have : a - b + -st - 1 = -b - -a + -st - 1 := by omega
+    rw [this]
+  rw [e]
+  apply List.map_congr_left
+  intro i _
+  simp only [Function.comp_apply]
+  rw [Int.neg_add, Int.neg_neg, Int.neg_mul, Int.neg_neg]
+
+end Occa.Functional
